@@ -379,8 +379,21 @@ fn gen_chains(rng: &mut Rng, tier: Tier) -> Sc {
     while labels.len() < target * 2 + 40 {
         labels.insert(if wide { (rng.next_u64() >> 32) as u32 | if rng.chance(0.5) { 0xFFFF_0000 } else { 0 } } else { rng.below(100_000) as u32 });
     }
+    // the extreme labels are legal vertex ids as well
+    if rng.chance(0.25) {
+        labels.insert(u32::MAX);
+        labels.insert(0);
+        labels.insert(u32::MAX - 1);
+    }
     let mut labels: Vec<u32> = labels.into_iter().collect();
     rng.shuffle(&mut labels);
+    // ... and should turn up early, where they are used
+    if rng.chance(0.5) {
+        if let Some(i) = labels.iter().position(|&l| l == u32::MAX) {
+            let j = rng.below(labels.len().min(8));
+            labels.swap(i, j);
+        }
+    }
     let mut pairs: Vec<[u32; 2]> = Vec::new();
     let mut li = 0;
     while pairs.len() < target {
@@ -1312,6 +1325,26 @@ impl Property for C12 {
             }
         }
         out
+    }
+
+    fn valid(&self, sc: &Sc) -> bool {
+        match sc {
+            Sc::Mesh { mesh, .. } => !mesh.f.is_empty() && mesh.in_domain() && mesh.has_distinct_positions(),
+            Sc::Sparse { mesh, ids, n_vertices, .. } => !mesh.f.is_empty() && mesh.in_domain() && ids.len() == mesh.v.len() && ids.iter().all(|&i| (i as usize) < *n_vertices),
+            Sc::History { mesh, steps, .. } => {
+                !mesh.f.is_empty()
+                    && mesh.in_domain()
+                    && steps.iter().all(|s| match s {
+                        Step::Append(o) => !o.f.is_empty() && o.in_domain(),
+                        _ => true,
+                    })
+                    && history_stage(mesh, steps, steps.len()).has_distinct_positions()
+            }
+            Sc::Box { w, h, d } => *w > 0.0 && *h > 0.0 && *d > 0.0,
+            Sc::Cylinder { r, h, steps } => *r > 0.0 && *h > 0.0 && *steps >= 3,
+            Sc::Voxels { cells, .. } => !cells.is_empty(),
+            Sc::Chains { pairs, .. } => !pairs.is_empty(),
+        }
     }
 
     fn fingerprints(&self, sc: &Sc, _v: &Violation) -> Vec<String> {
